@@ -1200,14 +1200,18 @@ def work_g(args):
         if ok_pre and rows[0] == 0 and len(set(json.dumps(r[0]) for r in rows[1])) >= 2 and rel and other:
             S['nontrivial'] += 1
         if use_model:
-            if canon_model_rows(m7[i]) != rows:
+            # outside the hypotheses (a negative contig length, a reversed BED record on a selected contig, bin size <= 0,
+            # negative fragment size) the behaviour is not constrained: counted, not compared
+            if not ok_pre:
+                S['hist']['outside_domain_not_compared'] += 1
+            elif canon_model_rows(m7[i]) != rows:
                 disagree('blacklisted_binning_contigs', t, m7[i], o['rows'])
             if (pre[i] == 1) != ok_pre or (nd[i] == 1) != nodup_py(t):
                 S['notes'].append('harness: Python gpre/nodup and Coq gpre/nodupb disagree on %r' % (t,))
             if i in m9 and 'chunks' in o:
                 mc = [1] if m9[i][0] == 1 else [0, m9[i][1]]
                 ic = [0, [[[fw.to_val(r[0])] + list(r[1:]) for r in ch] for ch in o['chunks']]]
-                if mc != ic:
+                if ok_pre and mc != ic:
                     disagree('bp_chunked(blacklisted_binning_contigs)', dict(t), m9[i], o.get('chunks'))
             if i % 7 == 0 or len(S['keep']) < 30:
                 S['keep'].append((gmodel_input(t), m7[i], None))
